@@ -29,6 +29,70 @@ CLAIMS = {
     ),
 }
 
+KERNEL_NOTE = BASE_NOTE + (
+    "Kernel model (lean/AnyioModel/Kernel): CPython 3.12 Task/Future/_run_once cycle structure, "
+    "CancelScope, TaskGroup, TaskGroup.start, TaskHandle transcribed by hand; order of handles inside "
+    "one loop cycle is abstracted (any order), native Task.cancel() landing inside AnyIO-internal "
+    "shielded sections is outside the claim (DESIGN section 4). uvloop is exercised by C08 only; "
+    "the handle-level trace validation runs on the stock loop (C tasks) and with the eager task factory.")
+
+for _p, _t, _d in [
+    ("C01", "every child spawned into a group (also by other children, after cancellation, during the exit "
+            "checkpoint, via start()) has terminated and never runs again when the block ends; handle "
+            "status/outcome match the coroutine's end", "5/C01"),
+    ("C02", "leaves of the raised exception group = multiset of non-cancellation exceptions of body and "
+            "children, exactly once; siblings cancelled; nothing raised when nothing failed", "5/C02"),
+    ("C03", "no unshielded task stays blocked in an effectively cancelled scope: interrupted within a "
+            "bounded number of loop cycles and without the clock advancing; again at later checkpoints", "5/C03"),
+    ("C04", "cancellation is received only in effectively cancelled scopes; exit absorbs iff own cancel and "
+            "no visible cancelled ancestor; cancelled_caught exact; other exceptions pass", "5/C04"),
+    ("C05", "Task.cancelling() restored on scope exit, current-scope pointer restored, no timer or delivery "
+            "callback left, loop idle after the program", "5/C05"),
+    ("C06", "deadline fires exactly when due while active (on entry if past, re-armed on assignment), never "
+            "early/late/after exit; current_effective_deadline equals the reference", "5/C06"),
+    ("C07", "start() returns only after started(); early child exit raises from start(); cancelled caller: "
+            "child terminated first and its error still surfaces; second started() is an error", "5/C07"),
+]:
+    CLAIMS[_p] = dict(
+        category="translation_validation",
+        text="Trace validation of the real code against the executable Lean kernel model: every API call "
+             "and every event-loop handle of generated task/scope/group programs is replayed in the model "
+             "and each outcome compared (ids, resumed values, raised exceptions, swallowed/passed exits, "
+             "cancelling(), scope flags); an oracle written from the property statement (" + _t + ") judges "
+             "the same histories with its own reference semantics. The Lean theorems over the kernel model "
+             "for this property are still being proved; until they are in Props/" + _p + ".lean the claim is "
+             "translation validation, not proof.",
+        design=_d, note=KERNEL_NOTE,
+        technique="trace validation against an executable Lean 4 model + reference-semantics oracle")
+
+CLAIMS["C08"] = dict(
+    category="exploration",
+    text="Complete enumeration of the finite operation x state matrix (every potentially blocking primitive "
+         "in every state class in which it can complete without waiting, 20 itertools functions x 4 input "
+         "classes) on asyncio, asyncio+eager and asyncio+uvloop: in a cancelled scope the operation must "
+         "raise and leave the object's observable state unchanged; otherwise a sentinel queued just before "
+         "the call must have run before it returns. The Lock cells are additionally replayed in the Lean "
+         "model; theorems over the primitive models are being added.",
+    design="5/C08",
+    note="Observations through public API only (statistics(), value, borrowed_tokens, locked(), status). "
+         "functools.reduce: only the never-invoked-callback cases are claimed (DESIGN section 4).",
+    technique="exhaustive probe matrix on the real code (Lean theorems on the primitive models pending)")
+
+CLAIMS["C16"] = dict(
+    text="Lean theorems for all byte lists, chunkings, environment choices (bytes returned per underlying "
+         "receive) and call sequences: conservation (handed-out bytes + consumed delimiters + buffer = "
+         "what entered, in order), receive returns 1..n bytes, receive_exactly exactly n or IncompleteRead "
+         "at end of stream, receive_until = bytes before the first occurrence with the delimiter consumed, "
+         "DelimiterNotFound/IncompleteRead conditions, failing calls consume nothing, the search offset is "
+         "sound and tight; text: chunking transparency for any fold decoder, UTF-8 round trip via Lean "
+         "core's encoder/decoder. The models are compared with the real BufferedByteReceiveStream / "
+         "TextReceiveStream / TextSendStream on exhaustively enumerated small inputs and random long ones.",
+    design="5/C16",
+    note=BASE_NOTE + "Trusted: the in-memory fake wrapped streams; bytearray.find = the model's naive "
+         "search (proved to be first-occurrence in Lean, compared on every case); CPython's utf-16/32/latin-1 "
+         "incremental codecs (fold law sampled, not proved; UTF-8 is proved over Lean core's definitions).",
+    technique="Lean 4 proofs over pure functional models + exhaustive/random differential testing")
+
 PENDING = {
 }
 
